@@ -28,3 +28,23 @@ class NumberCmp:
 
     def ensures(self, fields_a, fields_b, result):
         return {"count": result == (card(fields_a & fields_b) >= self.number_fields)}
+
+
+@contract("json_to_models/registry.py::ModelRegistry._models_cmp_fn", props=["C05"])
+class ModelsCmpFn:
+    """'two models are similar iff at least one configured comparator accepts their key sets' (C05, statement)"""
+    sorts = dict(model_a="obj:ModelMeta", model_b="obj:ModelMeta", result="bool", _type="dict")
+
+    def requires(self, model_a, model_b):
+        return {
+            "known_comparators": forall(self._models_cmp, lambda c: ty_is(c, (ModelFieldsEquals, ModelFieldsPercentMatch, ModelFieldsNumberMatch))),
+            "some_key": card(set(model_a._type.keys()) | set(model_b._type.keys())) > 0,
+        }
+
+    def ensures(self, model_a, model_b, result):
+        a = set(model_a._type.keys())
+        b = set(model_b._type.keys())
+        return {"any_comparator": result == exists(self._models_cmp, lambda c:
+                (ty_is(c, ModelFieldsEquals) and set_eq(a, b))
+                or (ty_is(c, ModelFieldsPercentMatch) and card(a & b) >= c.percent_fields * card(a | b))
+                or (ty_is(c, ModelFieldsNumberMatch) and card(a & b) >= c.number_fields))}
